@@ -166,7 +166,7 @@ void cc_hashtable_destroy(CC_HashTable *table)
 enum cc_stat cc_hashtable_add(CC_HashTable *table, void *key, void *val)
 {
     enum cc_stat stat;
-    if (table->size >= table->threshold) {
+    while (table->size >= table->threshold) {
         if ((stat = resize(table, table->capacity << 1)) != CC_OK)
             return stat;
     }
